@@ -170,7 +170,7 @@ Section Sound.
     Proof.
       induction rw as [|r'|ts cc|l IH|l IH|b s IHb IHs] using rewrite_ind'; intros Hp o r c Hc e He.
       - (* This *)
-        simpl in Hc. destruct (merge_entries _ _ _ _ _ _ Hc He) as [Hh | [x [c' [Hx [Hc' He']]]]].
+        cbn [expand_rw] in Hc. destruct (merge_entries _ _ _ _ _ _ Hc He) as [Hh | [x [c' [Hx [Hc' He']]]]].
         + apply in_flat_map in Hh. destruct Hh as [t [Ht Hh]].
           apply passing_In in Ht. destruct Ht as [Ht HT]. apply raw_tuples_of in Ht.
           assert (G : forall u, t_sub t = u -> e = mkf u Has [] -> good_rw o r This e).
@@ -189,10 +189,10 @@ Section Sound.
           apply or3_list_T_iff. apply in_map_iff. exists t. split; [|exact Ht].
           unfold direct1. rewrite Hs, (set_not_plain _ _ _ P), HT, (G3 P). reflexivity.
       - (* Computed *)
-        simpl in Hc. destruct (HD o r' c Hc e He) as [G1 [G2 G3]].
+        cbn [expand_rw] in Hc. destruct (HD o r' c Hc e He) as [G1 [G2 G3]].
         split; [exact G1|]. split; [exact G2|]. intros P. simpl. apply G3; exact P.
       - (* TTU *)
-        simpl in Hc. destruct (merge_entries _ _ _ _ _ _ Hc He) as [[] | [x [c' [Hx [Hc' He']]]]].
+        cbn [expand_rw] in Hc. destruct (merge_entries _ _ _ _ _ _ Hc He) as [[] | [x [c' [Hx [Hc' He']]]]].
         apply in_flat_map in Hx. destruct Hx as [t [Ht Hx]].
         apply passing_In in Ht. destruct Ht as [Ht HT]. apply raw_tuples_of in Ht.
         destruct (t_sub t) as [o'|ty|o' r''] eqn:Hs; [| destruct Hx | destruct Hx].
@@ -206,7 +206,7 @@ Section Sound.
           unfold rel_defined. destruct (get_relation m (otype o') cc); [reflexivity | discriminate]. }
         rewrite D, HT, (G3 P). reflexivity.
       - (* Union *)
-        simpl in Hc. rewrite go_map in Hc. apply cdedup_In in Hc. apply in_map_iff in Hc.
+        cbn [expand_rw l_outs] in Hc. rewrite go_map in Hc. apply cdedup_In in Hc. apply in_map_iff in Hc.
         destruct Hc as [cs [<- Hcs]]. apply cart_In in Hcs. rewrite map_map in Hcs. apply Forall2_map_r in Hcs.
         rewrite positive_Union, forallb_forall in Hp. rewrite Forall_forall in IH.
         assert (CL : forall c', In c' cs -> forall e', In e' c' -> f_excl e' = []).
@@ -214,7 +214,7 @@ Section Sound.
           destruct (IH y Hy (Hp y Hy) o r c' Hin e' He') as [_ [G2 _]]. exact G2. }
         unfold lu_union in He. rewrite (all_excl_nil cs CL) in He. simpl in He.
         apply in_map_iff in He. destruct He as [k [<- Hk]].
-        split; [reflexivity|]. split; [reflexivity|]. simpl. intros P.
+        split; [reflexivity|]. split; [reflexivity|]. cbn [f_user mkf]. intros P.
         apply (proj1 (sdedup_In _ _)) in Hk. apply (proj2 (smem_In _ _)) in Hk.
         rewrite smem_has_keys, has_concat in Hk. apply existsb_exists in Hk. destruct Hk as [R [HR Hk]].
         apply has_key_In in Hk. destruct Hk as [e' [He' Hu']].
@@ -222,7 +222,7 @@ Section Sound.
         destruct (IH y Hy (Hp y Hy) o r R Hin e' He') as [_ [_ G3]]. rewrite Hu' in G3.
         rewrite eval_rw_Union. apply or3_list_T_iff. apply in_map_iff. exists y. split; [apply G3; exact P | exact Hy].
       - (* Inter *)
-        simpl in Hc. rewrite go_map in Hc. apply cdedup_In in Hc. apply in_map_iff in Hc.
+        cbn [expand_rw l_outs] in Hc. rewrite go_map in Hc. apply cdedup_In in Hc. apply in_map_iff in Hc.
         destruct Hc as [cs [<- Hcs]]. apply cart_In in Hcs. rewrite map_map in Hcs. apply Forall2_map_r in Hcs.
         rewrite positive_Inter, forallb_forall in Hp. rewrite Forall_forall in IH.
         assert (CL : forall c', In c' cs -> forall e', In e' c' -> f_excl e' = []).
@@ -236,7 +236,7 @@ Section Sound.
           destruct (Forall2_In_l _ _ _ _ Hcs HR) as [y [Hy Hin]].
           exact (expand_rw_ok m conds store ft fr dispatch HK y o r R Hin e' He'). }
         unfold lu_inter in He. rewrite (all_excl_nil cs CL) in He. simpl in He.
-        apply in_map_iff in He. destruct He as [k [<- _]]. simpl in *.
+        apply in_map_iff in He. destruct He as [k [<- _]]. cbn [f_user mkf] in *.
         split; [reflexivity|]. split; [reflexivity|]. intros P.
         rewrite lu_inter_has in Hhas. apply andb_true_iff in Hhas. destruct Hhas as [_ Hall].
         rewrite forallb_forall in Hall.
